@@ -18,7 +18,7 @@ def Good : Kind → Val → Prop
   | .model, o => IsModel o
   | .result, o => ∃ ev dof va nc me cv nr np ms mv dv ncv,
       o = mkResult ev dof va nc me cv nr np ms mv dv ncv ∧ ModelsWF ms ∧
-        secondDim ev = some ms.size
+        keysFrom modelKey 0 ms ∧ secondDim ev = some ms.size
 
 /-- object → dictionary → any dictionary offering the same fields → object, for every kind -/
 theorem kind_roundtrip (k : Kind) (o : Val) (h : Good k o) :
@@ -47,8 +47,8 @@ theorem kind_roundtrip (k : Kind) (o : Val) (h : Good k o) :
         exact temporalFromDict_sim m desc od cd td d' hwf hs
   | model => exact model_roundtrip o h
   | result =>
-    obtain ⟨ev, dof, va, nc, me, cv, nr, np, ms, mv, dv, ncv, rfl, hms, hsec⟩ := h
-    exact result_roundtrip noRecompute ev dof va nc me cv nr np ms mv dv ncv hms hsec
+    obtain ⟨ev, dof, va, nc, me, cv, nr, np, ms, mv, dv, ncv, rfl, hms, hkeys, hsec⟩ := h
+    exact result_roundtrip noRecompute ev dof va nc me cv nr np ms mv dv ncv hms hkeys hsec
 
 /-! ### file system -/
 
